@@ -48,8 +48,18 @@ def build():
     na = []
     for p in props:
         pid = p['id']
-        if pid in CHECKS and os.path.exists(os.path.join(HERE, 'vp', 'props', pid.lower() + '.py')):
-            sec, tech, text, note = CHECKS[pid]
+        modpath = os.path.join(HERE, 'vp', 'props', pid.lower() + '.py')
+        meta = None
+        if os.path.exists(modpath):
+            if pid in CHECKS:
+                meta = CHECKS[pid]
+            else:
+                import importlib
+                mod = importlib.import_module('vp.props.' + pid.lower())
+                if getattr(mod, 'LEVEL_TEXT', None):
+                    meta = (mod.DESIGN_REF, mod.TECHNIQUE, mod.LEVEL_TEXT, mod.LEVEL_NOTE)
+        if meta:
+            sec, tech, text, note = meta
             checks.append({
                 'property_id': pid,
                 'quick_cmd': './bin/check {} quick'.format(pid),
